@@ -27,6 +27,7 @@ from ..callgraph import Resolver
 from ..effects import Effects
 from ..cfg import CFG, subnodes
 from ..struct import parent_map
+from .. import tables as T
 
 PROP = 'C04'
 
@@ -162,20 +163,16 @@ def check_indent(ctx, res):
             while cur in par:
                 cur = par[cur]
                 if isinstance(cur, ast.If):
-                    for x in ast.walk(cur.test):
-                        if isinstance(x, ast.Name) and x.id in ('Constant', 'JoinedStr', 'TemplateStr'):
-                            covered.add(x.id)
+                    covered |= T.classes_mentioned(ctx, fi.module, cur.test) & {'Constant', 'JoinedStr', 'TemplateStr'}
         for kind in ('Constant', 'JoinedStr', 'TemplateStr'):
             ctx.check('R4.2c', kind in covered, fi.module, fi.qualname, f'arm for {kind}',
                       f'multi-line {kind} literals are not excluded from the indentable lines: re-indenting a block changes their value', fi.lineno)
         # aliases of the scanner are the same function
-    for q in ('_multiline_ftstr_continuation_lns',):
-        v = [n for n in core.tree.body if isinstance(n, ast.Assign) and norm(n.targets[0]) == q]
-        fdef = ctx.repo.mod('fst_core').func(q)
-        if not fdef and not (v and norm(v[0].value) == '_multiline_str_continuation_lns'):
-            raise AnalysisError(f'{q} is neither a function nor an alias of the scanner')
     # ---- (d)
-    scanners = ctx.repo.funcs('fst_core', '_multiline_str_continuation_lns') + list(ctx.repo.mod('fst_core').func('_multiline_ftstr_continuation_lns'))
+    scanners = {fi.key: fi for q in ('_multiline_str_continuation_lns', '_multiline_ftstr_continuation_lns') for fi in ctx.repo.find_funcs('fst_core', q)}
+    if not scanners:
+        raise AnalysisError('continuation-line scanner (_multiline_str_continuation_lns) not found')
+    scanners = list(scanners.values())
     for fi in scanners:
         cfg = CFG(fi.node)
         par = parent_map(fi.node)
